@@ -229,14 +229,17 @@ def oracle(seed=3, trials=25):
         depth = rng.randint(4, 9)
         ra, dec = rng.choice([0.0, 359.99, rng.uniform(0, 360)]), rng.choice([90.0, -90.0, rng.uniform(-89, 89), rng.uniform(-89, 89)])
         rad = rng.uniform(0.3, 20)
+        eff = depth
         if t % 2 == 0:
             r = regions.Region(maxdepth=depth)
-            r.add_circles(real_np.radians(ra), real_np.radians(dec), real_np.radians(rad))
+            darg = [None, depth, depth - 1, depth + 1, depth + 3, None][(t // 2) % 6]      # the depth argument: absent, equal, coarser, finer than the region
+            r.add_circles(real_np.radians(ra), real_np.radians(dec), real_np.radians(rad), depth=darg)
+            eff = depth if (darg is None or darg > depth) else darg
         else:
             cont = mim.Dummy(maxdepth=depth)
             cont.include_circles.append([ra, dec, rad])
             r = mim.combine_regions(cont)
-        pix = hp.nside2resol(2 ** depth, arcmin=True) / 60
+        pix = hp.nside2resol(2 ** eff, arcmin=True) / 60
         v0 = hp.ang2vec(real_np.radians(90 - dec), real_np.radians(ra))
         for _ in range(60):
             # random point at angular distance d from the centre
